@@ -6,7 +6,7 @@
      e j s x k u   a session whose poll ends with nil (HTTP 500 / malformed body / empty status /
                    error status / match without offer / undecodable offer)
      n             one "no match" answer, then HTTP 500
-     b r           relay URL unparsable / rejected
+     b r R         relay URL unparsable / host rejected / scheme rejected (non-TLS relay not allowed)
      p             peer connection cannot be made from the offer
      a g m         /answer fails (HTTP 500 / "client gone" / malformed) before the client connects
      t             the client never opens the data channel (20 s timer)
@@ -31,7 +31,7 @@ Definition op_labels (v : version) (sid : nat) (t : bytes) : option (list label 
   | [c] =>
       if existsb (N.eqb c) [101; 106; 115; 120; 107; 117]%N then Some (pre ++ [LPollNil; LMainRecv], true)
       else if (c =? 110)%N then Some (pre ++ [LPollNoMatch; LPollNil; LMainRecv], true)
-      else if existsb (N.eqb c) [98; 114]%N then Some (pre ++ [LPollOffer; LRelayBad; LMainRecv], true)
+      else if existsb (N.eqb c) [98; 114; 82]%N then Some (pre ++ [LPollOffer; LRelayBad; LMainRecv], true)
       else if (c =? 112)%N then Some (pre ++ [LPollOffer; LRelayOk; LPcFail; LMainRecv], true)
       else if existsb (N.eqb c) [97; 103; 109]%N
            then Some (nego ++ [LAnswerFail; LGiveUp; LClose; LMainRecv], true)
